@@ -168,6 +168,100 @@ M.loop(P_STRIP + ':_strip_trailing_space', 2, invariant=_inv_ts_inner,
        modifies=dict(yielded='len', empty_line='local'))
 
 
+
+# ------------------------------------------------------------------------------ strip (default)
+# Both ends: the stripped text sits at an offset that no expression over the result names, so the clause is written
+# with CPython's `strip()` itself -- in proofs the engine's function  t |-> t.strip()  (pyvc/charclass.py: t == a + r + b,
+# a and b white space only, r empty or neither starting nor ending with white space) -- and the proof uses ONE lemma
+# about that function: the decomposition is unique.
+
+def _strip_unique_statement(a, r, b):
+    return implies(all_space(a) and all_space(b)
+                   and (r == '' or (not r[:1].isspace() and not r[len(r) - 1:].isspace())),
+                   (a + r + b).strip() == r)
+
+
+def strip_unique(a, r, b):
+    """TRUSTED LEMMA about the function t |-> t.strip() as the engine defines it (uniqueness of the decomposition:
+    if t == a + r + b == a' + r' + b' with a, b, a', b' white space only and r, r' empty or neither starting nor
+    ending with white space then r == r': were |a| < |a'|, the first character of r would be a character of a', hence
+    white space; symmetrically at the end; if r is empty t is white space only and so is r').  Evaluated natively on
+    every short text by the check `strip-models`."""
+    return _strip_unique_statement(a, r, b)
+
+
+def _m_strip_unique(interp, args, kwargs):
+    from pyvc.api import assume_pred
+    assume_pred(interp, _strip_unique_statement, *args)
+    return True
+
+
+M.model(strip_unique, _m_strip_unique)
+_STRIP_SPACE_PROOF = False      # (see notes/C05.md, Extension T14: two conjuncts of the invariant of the main loop and the
+#                                 final clause are not discharged within the solver budgets yet)
+
+def _lead(line):
+    """the white space at the beginning of a line"""
+    return line[:len(line) - len(line.lstrip())]
+
+
+def _space_before(xs, f):
+    """the text before the first character that is not white space: the lines before line f and the white space at
+    the beginning of line f"""
+    return prefix_join(xs, f) + _lead(xs[f])
+
+
+def _inv_s(_i, _n, _i0, lines, yielded, non_empty_line, empty_lines_skipped):
+    xs = lines.xs
+    k = _i - 1 - len(empty_lines_skipped)
+    return 0 <= _i0 and _i0 <= k and k - _i0 == len(yielded) \
+        and not all_space(non_empty_line) \
+        and is_line(non_empty_line) and (k >= _n - 1 or non_empty_line.endswith(NL)) \
+        and ((len(yielded) == 0 and not non_empty_line[:1].isspace())
+             or (len(yielded) > 0 and not yielded[0][:1].isspace())) \
+        and all_space(_space_before(xs, _i0)) \
+        and all_space(join_of(empty_lines_skipped)) \
+        and all_space(_space_at_end(non_empty_line) + join_of(empty_lines_skipped)) \
+        and _space_before(xs, _i0) + join_of(yielded) + non_empty_line == prefix_join(xs, k + 1) \
+        and prefix_join(xs, _i) == prefix_join(xs, k + 1) + join_of(empty_lines_skipped) \
+        and strip_unique(_space_before(xs, _i0), join_of(yielded) + non_empty_line.rstrip(),
+                         _space_at_end(non_empty_line) + join_of(empty_lines_skipped)) \
+        and forall_range(0, len(yielded), lambda j: is_line(yielded[j]) and yielded[j].endswith(NL)) \
+        and forall_range(0, len(empty_lines_skipped), lambda j: empty_lines_skipped[j] == xs[_i - len(empty_lines_skipped) + j])
+
+
+def _inv_s_inner(_i, _i1, _i0, lines, yielded, empty_lines_skipped):
+    xs = lines.xs
+    k = _i1 - len(empty_lines_skipped) + _i
+    return k - _i0 == len(yielded) and len(yielded) > 0 and not yielded[0][:1].isspace() \
+        and _space_before(xs, _i0) + join_of(yielded) == prefix_join(xs, k) \
+        and forall_range(0, len(yielded), lambda j: is_line(yielded[j]) and yielded[j].endswith(NL)) \
+        and forall_range(0, len(empty_lines_skipped), lambda j: empty_lines_skipped[j] == xs[_i1 - len(empty_lines_skipped) + j])
+
+
+if _STRIP_SPACE_PROOF:
+    M.trust('lemma strip_unique (contracts/C05c_strip.py): the decomposition t == a + r + b that defines t.strip() relative to '
+            'the white-space class is unique (word combinatorics, no property of CPython); instantiated once, in the invariant '
+            'of the main loop of _strip_space; evaluated natively on all short texts by the check `strip-models`')
+    M.contract(P_STRIP + ':_strip_space',
+               params=dict(lines=IterOf(Str)),
+               requires=lambda lines: proper_lines(lines.xs),
+               old=lambda lines: join_of(lines.xs),
+               yields=ListOf(Str),
+               ensures={
+                   'yields the lines of the text without the white space at its beginning and end':
+                       lambda yielded, old: is_split_nl(yielded, join_of(yielded))
+                       and join_of(yielded) == old.strip(),
+               },
+               raises_only=())
+    M.loop(P_STRIP + ':_strip_space', 0, invariant=lambda _i, lines: all_space(prefix_join(lines.xs, _i)),
+           modifies=dict(non_empty_line=Str))
+    M.loop(P_STRIP + ':_strip_space', 1, invariant=_inv_s,
+           modifies=dict(yielded='len', non_empty_line=Str, empty_lines_skipped=MListOf(Str),
+                         next_line='local', empty_line='local'))
+    M.loop(P_STRIP + ':_strip_space', 2, invariant=_inv_s_inner,
+           modifies=dict(yielded='len', empty_line='local'))
+
 # ------------------------------------------------------------------------------ what is assumed of CPython
 # The proofs above interpret `x.isspace()`, `x.rstrip()`, `x.lstrip()` of a line x by the engine's models
 # (pyvc/charclass.py): white space is the class W of the one-character strings c with c.isspace() (uninterpreted
@@ -240,6 +334,17 @@ def _strip_models(ctx):
     ctx.obligation('models (S1)-(S3) of isspace / rstrip / lstrip, and: the text characterised by is_rstripped_space / '
                    'is_stripped_space is unique and is t.rstrip() / t.strip()', bad is None, 'enumeration',
                    {'texts': n, 'alphabet': repr(_SPACE_ALPHABET), 'max length': max_len, 'counterexample': repr(bad)})
+    bad = None
+    n = 0
+    for t in _all_texts(_SPACE_ALPHABET, 4):
+        for j in range(len(t) + 1):
+            for k in range(j, len(t) + 1):
+                n += 1
+                if not strip_unique(t[:j], t[j:k], t[k:]):
+                    bad = (t[:j], t[j:k], t[k:])
+    ctx.obligation('lemma strip_unique: a + r + b with a, b white space only and r empty or neither starting nor ending '
+                   'with white space has (a + r + b).strip() == r', bad is None, 'enumeration',
+                   {'cases': n, 'counterexample': repr(bad)})
     bad = None
     n = 0
     for t in _all_texts('\na \r', 8 if ctx.tier == 'thorough' else 7):
